@@ -20,7 +20,8 @@ LEVEL_NOTE = ("Trusted: Coq kernel, Go harness + Python glue (value interning: d
               "(only observed through the executed round trip + SHOW CREATE TABLE equality), the SQL parser beyond string-literal scanning, type-specific value "
               "formatting other than int / varchar / text / varbinary, keyless tables, PK changes.")
 THEOREMS = ["diff_exact", "diff_sorted", "patch_roundtrip", "patch_roundtrip_eq", "sql_string_roundtrip", "hex_roundtrip", "diff_counts", "col_ddl_roundtrip", "ddl_counts_spec", "oracle_on_model"]
-RULE = ("two commits of t(pk, a int, s varchar, x text, v varbinary): first commit 0-6 rows, second commit = first with rows deleted/inserted/cells changed; values small ints, "
+RULE = ("round 3: schema deltas rename / modify(int->bigint) / rename-then-modify across two commits (patch spans both, tag preserved) with values that need the new type; ALTER statement counts "
+        "compared with the schema delta; the literal encoder is called through sqlfmt (VerifQuoteAndEscapeString) and backslash-only strings (C:\\new\\table) are fixed cases at the function level and through dolt_patch; two commits of t(pk, a int, s varchar, x text, v varbinary): first commit 0-6 rows, second commit = first with rows deleted/inserted/cells changed; values small ints, "
         "NULL, strings over an alphabet of quote, double quote, backslash, NUL, newline, CR, tab, ctrl-Z, backspace, %, _, backtick, semicolon, comment openers, a 2-byte UTF-8 char; "
         "binary values over all byte classes; 20% add-column and 15% drop-column second commits; per case 4 byte strings (all 256 byte values reachable) through the literal encoder; "
         "non-trivial = the two commits differ; distinct by case JSON")
